@@ -1,7 +1,7 @@
 #!/bin/bash
 # MANIFEST.setup_cmd — builds the framework from files on disk only (offline).
 set -e
-cd /verif
+cd "$(dirname "$0")"
 export GOFLAGS=-mod=mod GOPROXY=off GOSUMDB=off GOTOOLCHAIN=local
 mkdir -p .build evidence replays
 tools/build.sh
